@@ -72,9 +72,7 @@ class SegmentsModel:
 
 
 def encoder_env(forest, interp, **over):
-    genv = callable_env(forest, 'encoder', interp)
-    genv.update(over)
-    return genv
+    return callable_env(forest, 'encoder', interp, dict(over))
 
 
 def method(forest, interp, genv, cls, name):
